@@ -7,6 +7,7 @@
 #include <float.h>
 #include <limits.h>
 #include <math.h>
+#include "json_util.h"
 #include <stdlib.h>
 #include <string.h>
 
@@ -139,6 +140,21 @@ static void accessors(json_object *o, const char *kind, int exact_neg, uint64_t 
 		sd = strtod(s, &end);
 		full = end != s && *end == 0 && strlen(s) == (size_t)json_object_get_string_len(o);
 		range = errno == ERANGE && (sd == HUGE_VAL || sd == -HUGE_VAL);
+	}
+	if (!strcmp(kind, "string") && strlen(json_object_get_string(o)) == (size_t)json_object_get_string_len(o))
+	{
+		/* the public text-to-integer helpers called directly on the same text */
+		int64_t pv = 0;
+		uint64_t pu = 0;
+		int r1 = json_parse_int64(json_object_get_string(o), &pv), r2 = json_parse_uint64(json_object_get_string(o), &pu);
+		ev_open_obj("pi64");
+		ev_int("ret", r1);
+		ev_i64("v", r1 ? 0 : pv);
+		ev_close_obj();
+		ev_open_obj("pu64");
+		ev_int("ret", r2);
+		ev_u64("v", r2 ? 0 : pu);
+		ev_close_obj();
 	}
 	ev_open_obj("strtod");
 	ev_bool("full", full);
